@@ -280,6 +280,15 @@ def ocaml_build(group, timeout=900):
     try:
         shutil.copy(os.path.join(d, "extract.v"), tmp)
         shutil.copy(os.path.join(d, "driver.ml"), tmp)
+        # the modules extract.v imports have to be compiled (a fresh checkout has no .vo files, and they need not be in
+        # the dependency closure of any Properties file)
+        import re as _re
+        mods = []
+        for m in _re.finditer(r"From\s+RB\s+Require\s+(?:Import\s+|Export\s+)?(.*?)\.(?:\s|$)", open(os.path.join(d, "extract.v")).read(), _re.S):
+            mods += m.group(1).split()
+        targets = [x.replace(".", "/") + ".vo" for x in mods if os.path.exists(os.path.join(COQ, x.replace(".", "/") + ".v"))]
+        if targets:
+            coq_make(targets, timeout=3000)
         with Lock(".build.lock"):
             rc, out = sh(["coqc", "-q", "-noglob", "-Q", COQ, "RB", "-w", "none", "extract.v"], cwd=tmp, timeout=timeout)
         if rc != 0:
